@@ -40,6 +40,17 @@ type probeUnit struct {
 	label func(i int) string
 	class func(i int) string // input class: part of the signature
 	run   func(i int) string // outcome word
+	// quick tier: probe processes a case may lose before it stops (0: 6)
+	maxDeaths int
+	// processor time a row is given (0: probeRowTime)
+	rowTime time.Duration
+}
+
+func (u probeUnit) rowLimit() time.Duration {
+	if u.rowTime > 0 {
+		return u.rowTime
+	}
+	return probeRowTime
 }
 
 // ---------------------------------------------------------------------------
@@ -489,7 +500,7 @@ var unitSelfInline = probeUnit{
 	},
 }
 
-var probeUnits = []probeUnit{unitNamedPointers, unitSetChildCycles, unitReferenceGraphs, unitSelfInline}
+var probeUnits = []probeUnit{unitNamedPointers, unitSetChildCycles, unitReferenceGraphs, unitSelfInline, unitCyclicInputs, unitCyclicTargets}
 
 // ---------------------------------------------------------------------------
 // probe side
@@ -523,7 +534,7 @@ func unitChild(unitArg, startArg string) {
 				fmt.Printf("WATCHDOG heap %d %d MB after %v\n", row, ms.HeapAlloc>>20, time.Since(rowStart).Round(time.Millisecond))
 				os.Exit(3)
 			}
-			if row >= 0 && (cpuTime()-rowCPU > probeRowTime || time.Since(rowStart) > 10*probeRowTime) {
+			if row >= 0 && (cpuTime()-rowCPU > u.rowLimit() || time.Since(rowStart) > 10*u.rowLimit()) {
 				fmt.Printf("WATCHDOG time %d %d MB after %v\n", row, ms.HeapAlloc>>20, time.Since(rowStart).Round(time.Millisecond))
 				os.Exit(4)
 			}
@@ -544,7 +555,8 @@ func unitChild(unitArg, startArg string) {
 					fmt.Printf("PANIC %d %s\n%s\nENDPANIC\n", i, strings.ReplaceAll(msg, "\n", " "), debug.Stack())
 				}
 			}()
-			fmt.Printf("DONE %d %s\n", i, u.run(i))
+			out := u.run(i)
+			fmt.Printf("DONE %d %s cpu=%v\n", i, out, (cpuTime() - rowCPU).Round(time.Millisecond))
 		}()
 	}
 	fmt.Println("END")
@@ -567,6 +579,9 @@ func runProbeUnit(m *mon, r *rand.Rand, seed int64, tier string, k int) {
 	total := u.rows()
 	// quick: a unit whose every row ends the probe must still end
 	maxProbes := 6
+	if u.maxDeaths > 0 {
+		maxProbes = u.maxDeaths
+	}
 	if tier == "thorough" {
 		maxProbes = total + 1
 	}
@@ -637,7 +652,7 @@ func runProbeUnit(m *mon, r *rand.Rand, seed int64, tier string, k int) {
 		case strings.HasPrefix(watchdog, "WATCHDOG heap"):
 			res.Violate("no-return:unbounded-allocation:"+u.class(last), "the call did not return and the heap of the probe process passed %d MB (%s); input: %s", probeHeapLimit>>20, watchdog, u.label(last))
 		case strings.HasPrefix(watchdog, "WATCHDOG time") || timedOut:
-			res.Violate("hang:"+u.class(last), "the call did not return within %v of processor time (%s); input: %s", probeRowTime, watchdog, u.label(last))
+			res.Violate("hang:"+u.class(last), "the call did not return within %v of processor time (%s); input: %s", u.rowLimit(), watchdog, u.label(last))
 		default:
 			class := deathClass(se.String())
 			pkg, fns := recursionOwner(se.String())
